@@ -68,6 +68,10 @@ where
     pub(crate) fn new(mut iter: I, size: Size, crop_area: &Rectangle) -> Self {
         let crop_area = Rectangle::new(Point::zero(), size).intersection(crop_area);
 
+        // The intersection with a zero sized crop area is the crop area itself, which can be larger
+        // than `size` in the other dimension.
+        let crop_size = crop_area.size.component_min(size);
+
         let initial_skip =
             crop_area.top_left.y as usize * size.width as usize + crop_area.top_left.x as usize;
 
@@ -79,8 +83,8 @@ where
             iter,
             x: 0,
             y: 0,
-            size: crop_area.size,
-            row_skip: (size.width - crop_area.size.width) as usize,
+            size: crop_size,
+            row_skip: (size.width - crop_size.width) as usize,
         }
     }
 }
